@@ -4,8 +4,10 @@ use serde_json::Value;
 pub mod c01;
 pub mod c02;
 pub mod c04;
+pub mod c06;
 pub mod c11;
 pub mod c12;
+pub mod c17;
 pub mod c18;
 pub mod c19;
 
@@ -14,8 +16,10 @@ pub fn registry() -> Vec<(&'static str, fn(&Report), Option<fn(&Value) -> String
         ("C01", c01::run, Some(c01::replay)),
         ("C02", c02::run, Some(c02::replay)),
         ("C04", c04::run, Some(c04::replay)),
+        ("C06", c06::run, Some(c06::replay)),
         ("C11", c11::run, Some(c11::replay)),
         ("C12", c12::run, Some(c12::replay)),
+        ("C17", c17::run, Some(c17::replay)),
         ("C18", c18::run, Some(c18::replay)),
         ("C19", c19::run, None),
     ]
